@@ -7,7 +7,8 @@ from harness.core import cs, copt
 from harness.props import attrs_common as ac
 
 CORPUS = ['', '0', '1', '5', '-1', '-5', '+3', '007', '1000', '1001', '65534', '65535', '99999999999999999999', '1.5', '1e3', ' 7 ', '\t8\n',
-          '0x10', '1_0', '१२', 'abc', 'on', 'OFF', 'Get', 'POST', 'anonymous', 'Use-Credentials', 'subtitles', 'CAPTIONS', 'true', 'False', 'x y']
+          '0x10', '1_0', '१२', 'abc', 'on', 'OFF', 'Get', 'POST', 'anonymous', 'Use-Credentials', 'subtitles', 'CAPTIONS', 'true', 'False', 'x y',
+          '2.5', '7.0', '-1.5', '.5', 'inf', 'Infinity', '-inf', 'nan', '1e999', '0b11', '5 ', '3px']
 
 _tables = {}
 
@@ -194,6 +195,8 @@ class C19(core.Check):
                 cases.append(dict(tag=tag, prop=prop, state=['html', tx]))
             cases.append(dict(tag=tag, prop=prop, state=['html', None]))      # the value-less spelling, for every cell in both tiers
             if self.tier != 'thorough':
+                tricky = ['2.5', 'inf', '1e999', '-1.5', '1e3', 'Infinity']
+                cases.append(dict(tag=tag, prop=prop, state=['html', tricky[len(cases) % len(tricky)]]))    # text that float() accepts and int() does not
                 cases.append(dict(tag=tag, prop=prop, state=['html', '']))    # ... and the empty value
                 cases.append(dict(tag=tag, prop=prop, state=['dot', '']))
             texts = CORPUS if self.tier == 'thorough' else rng.sample(CORPUS, 2)
